@@ -428,10 +428,27 @@ func (c *caseCtx) check(p *pass) {
 	func() {
 		defer func() {
 			if r := recover(); r != nil {
-				if strings.Contains(fmt.Sprint(r), "negative") {
-					c.fail("C02", "negative-balance", label+" where=commit", fmt.Sprintf("committing the post-state panicked: %v", r))
+				// which account field went negative (balance, or the storage-size counter)
+				what, neg := "", ""
+				for _, a := range w.known {
+					if b := p.st.GetBalance(mustInternal(a)); b.Sign() < 0 {
+						what, neg = "negative-balance", neg+fmt.Sprintf(" balance[%x]=%v", a.Bytes()[18:], b)
+					}
+					if sz := p.st.GetSize(mustInternal(a)); sz != nil && sz.Sign() < 0 {
+						if what == "" {
+							what = "negative-storage-size"
+						}
+						neg += fmt.Sprintf(" size[%x]=%v", a.Bytes()[18:], sz)
+					}
 				}
-				c.fail(c.prop, "panic", "where=commit", fmt.Sprintf("StateDB.Commit panicked: %v", r))
+				sd := ""
+				if tc.counts["SELFDESTRUCT"] > 0 {
+					sd = " selfdestruct"
+				}
+				if what == "negative-balance" {
+					c.fail("C02", "negative-balance", label+" where=commit", fmt.Sprintf("committing the post-state panicked: %v;%s", r, neg))
+				}
+				c.fail(c.prop, "panic", "where=commit "+what+sd, fmt.Sprintf("StateDB.Commit panicked: %v;%s", r, neg))
 				panic(r)
 			}
 		}()
